@@ -513,6 +513,15 @@ func isOrderSensitiveUpdate(v ssa.Value, phi *ssa.Phi, body map[*ssa.BasicBlock]
 				}
 			}
 		}
+		// any other call that computes the new value from the carried one (directive.Apply,
+		// a helper, ...): the result depends on the order in which the keys arrive
+		for _, a := range x.Call.Args {
+			if carriesPhi(a, phi, map[ssa.Value]bool{}) {
+				return true
+			}
+		}
+	case *ssa.Extract:
+		return isOrderSensitiveUpdate(x.Tuple, phi, body, seen)
 	case *ssa.BinOp:
 		if x.Op == token.ADD {
 			if b, ok := x.Type().Underlying().(*types.Basic); ok && b.Info()&types.IsString != 0 {
@@ -636,4 +645,23 @@ func libraryInterface(t types.Type) bool {
 	}
 	_, isIface := t.Underlying().(*types.Interface)
 	return isIface
+}
+
+// carriesPhi: v is the carried value itself or a phi that may hold it.
+func carriesPhi(v ssa.Value, phi *ssa.Phi, seen map[ssa.Value]bool) bool {
+	if v == ssa.Value(phi) {
+		return true
+	}
+	if seen[v] {
+		return false
+	}
+	seen[v] = true
+	if p, ok := v.(*ssa.Phi); ok {
+		for _, e := range p.Edges {
+			if carriesPhi(e, phi, seen) {
+				return true
+			}
+		}
+	}
+	return false
 }
